@@ -59,10 +59,15 @@ Record sgram := mk_sgram {
   sg_omen : omen
 }.
 
-(* the strings of the Markov level written in a group: level_strings G int(lv) *)
+(* the strings of the Markov level written in a group: level_strings G int(lv),
+   computed on the indexed CP table as everywhere in the correspondence
+   (OmenProofs5.level_strings_fast: equal to OmenSpec.level_strings G T) *)
+Definition level_strings_idx (G : omen) (T : Z) : list str :=
+  level_strings_f (ip_at G) (cp_fast G) (ln_at G) (og_max_level G) T.
+
 Definition omen_fn (G : omen) (lv : str) : list str :=
   match level_of_str lv with
-  | Some T => level_strings G T
+  | Some T => level_strings_idx G T
   | None => []
   end.
 
